@@ -1241,7 +1241,7 @@ def df_setitem(I, df, key, v):
     if isinstance(v, Mat):
         # column given as (n,1) block (np.vstack of np.tile(name,(T,1)))
         if concrete_int(v.nc) == 1:
-            v = Arr(v.nr, lambda i, m=v, _f_m=m.f: _f_m(i, 0))
+            v = Arr(v.nr, lambda i, _f_m=v.f: _f_m(i, 0))
         else:
             raise Unsupported('2-D column')
     if isinstance(v, Arr):
